@@ -9,6 +9,13 @@ Decides four one-step clauses of the model on the code of the three mutators (hi
      order.  Evaluated over len, depth in 0..7 for the bulk form (`drain(..n)`) and for the loop form (`while len > depth
      { pop_front }`: an iteration is taken iff len > depth and removes one point from the front);
  (d) R-WRITERS the `points` field is private and is written only by methods of RollbackBuffer.
+ (e) R-TABLE position   the index `position` returns is an index into the deque itself: the function (closures and Option
+     combinators included) is evaluated for every (head length H of the ring buffer's two slices, place k of the sought
+     point) over a deque of 6 points: found at k => Some(k), absent => None.  Searches over the deque's own iterator
+     (`iter().position`, `for (i, p) in iter().enumerate()`), index loops (`for i in 0..len` with `points[i]`/`get(i)`) and
+     searches over `as_slices()` (where an index found in the second slice must have the first slice's length added) are
+     modelled; any other adaptor (`rev`, `skip`, ...) or a predicate that is not equality with the given point is
+     reported as unrecognised (fail closed).
 """
 import re
 from pv import flow
@@ -296,6 +303,203 @@ def check_pop(res, P):
         res.violation("pop_with_depth:returns-removed", "pop_with_depth: " + why, where=where(f), rule="R-PROV")
 
 
+class PosModel:
+    """Evaluation of RollbackBuffer::position for one scenario: deque of LEN points whose backing slices have lengths
+    (H, LEN-H); the sought point sits at deque index k (None: absent)."""
+    LEN = 6
+
+    def __init__(self, P, H, k):
+        self.P, self.H, self.k = P, H, k
+        self.ev = Ev(self.leaf, prog=None)
+
+    # -- sequences
+    def source(self, sym):
+        s = sym
+        while True:
+            if s[0] in ("ref", "deref"):
+                s = s[1]
+            elif s[0] == "cast":
+                s = s[1]
+            elif s[0] == "call" and re.search(r"IntoIterator::into_iter$|Iterator::by_ref$", sg(s[1])) and len(s[2]) == 1:
+                s = s[2][0]
+            else:
+                break
+        if s[0] == "call":
+            n = sg(s[1])
+            if n in (VD + "iter",) and is_points(s[2][0]):
+                return "whole"
+            if n == "core::slice::iter" and len(s[2]) == 1:
+                return self.source(s[2][0])
+            if n.endswith("Iterator::enumerate") and len(s[2]) == 1:
+                return ("enum", self.source(s[2][0]))
+            raise Unknown(s)
+        if s[0] == "field" and strip(s[1], None)[0] == "call" and sg(strip(s[1], None)[1]) in (VD + "as_slices", VD + "as_mut_slices") \
+                and is_points(strip(s[1], None)[2][0]) and str(s[2]) in ("0", "1"):
+            return "head" if str(s[2]) == "0" else "tail"
+        if s[0] == "agg" and str(s[1]) == "core::ops::range::Range":
+            return ("range", self.ev(s[3][0]), self.ev(s[3][1]))
+        if is_points(s) and s[0] == "field":
+            return "whole"
+        raise Unknown(s)
+
+    def local_index(self, src):
+        """Index of the sought point inside the sequence `src`, or None when it is not in it."""
+        k, H = self.k, self.H
+        if k is None:
+            return None
+        if src == "whole":
+            return k
+        if src == "head":
+            return k if k < H else None
+        if src == "tail":
+            return k - H if k >= H else None
+        raise Unknown(("source", src))
+
+    def seq_len(self, src):
+        return {"whole": self.LEN, "head": self.H, "tail": self.LEN - self.H}[src]
+
+    # -- closures
+    @staticmethod
+    def subst_closure(sym, caps, argvals):
+        if not isinstance(sym, tuple) or not sym:
+            return sym
+        if not isinstance(sym[0], str):
+            return tuple(PosModel.subst_closure(x, caps, argvals) for x in sym)
+        if sym[0] == "field" and isinstance(sym[1], tuple) and strip(sym[1], None)[:2] == ("param", 1) and str(sym[2]).isdigit() and int(sym[2]) < len(caps):
+            return caps[int(sym[2])]
+        if sym[0] == "param" and sym[1] >= 2:
+            return ("val", argvals[sym[1] - 2]) if sym[1] - 2 < len(argvals) else sym
+        return tuple(PosModel.subst_closure(x, caps, argvals) if isinstance(x, tuple) else x for x in sym)
+
+    def closure_value(self, clo, argvals):
+        c = strip(clo, None)
+        if not (c[0] == "agg" and c[1] == "closure"):
+            raise Unknown(clo)
+        g = self.P.fns.get(c[2])
+        if g is None:
+            raise Unknown(clo)
+        return self.function_value(g, lambda t: self.subst_closure(t, list(c[3]), argvals))
+
+    def function_value(self, g, tr=lambda t: t):
+        vals = []
+        for p in tabulate(g, self.P, 512):
+            if p.end != "return":
+                continue
+            q = type("Q", (), {"conds": [(tr(c[0]), c[1]) for c in p.conds]})()
+            fz = feasible(q, self.ev)
+            if fz is None:
+                raise Unknown(("condition", tuple(c[0] for c in p.conds)))
+            if fz:
+                vals.append(self.ev(tr(p.ret)))
+        if not vals:
+            raise Unknown(("no feasible return path", g.path))
+        if any(v != vals[0] for v in vals):
+            raise Unknown(("paths disagree", g.path))
+        return vals[0]
+
+    def is_point(self, sym):
+        s = strip(sym, None)
+        return s[0] == "param" and s[1] == 2
+
+    def check_predicate(self, clo):
+        """The search predicate must be `element == the given point`, unnegated."""
+        c = strip(clo, None)
+        g = self.P.fns.get(c[2]) if c[0] == "agg" and c[1] == "closure" else None
+        if g is None:
+            raise Unknown(clo)
+        elem = ("elem", True)
+        v = self.function_value(g, lambda t: self.subst_closure(t, list(c[3]), [elem]))
+        if v != 1:
+            raise Unknown(("predicate is not equality with the given point", g.path))
+
+    # -- leaves
+    def leaf(self, s):
+        if s[0] == "val":
+            return s[1]
+        if s[0] != "call":
+            raise Unknown(s)
+        n, a = sg(s[1]), s[2]
+        if n.endswith("Iterator::position") and len(a) == 2:
+            src = self.source(a[0])
+            self.check_predicate(a[1])
+            i = self.local_index(src)
+            return some(i) if i is not None else NONE
+        if re.search(r"Iterator::next$|core::iter::range::next$", n) and len(a) == 1:
+            src = self.source(a[0])
+            if isinstance(src, tuple) and src[0] == "enum":
+                i = self.local_index(src[1])
+                return some(("tuple", (i, ("elem", True)))) if i is not None else NONE
+            if isinstance(src, tuple) and src[0] == "range":
+                return some(self.k) if self.k is not None and src[1] <= self.k < src[2] else NONE
+            i = self.local_index(src)
+            return some(("elem", True)) if i is not None else NONE
+        if n == VD + "len" and is_points(a[0]):
+            return self.LEN
+        if n == "core::slice::len" and len(a) == 1:
+            return self.seq_len(self.source(a[0]))
+        if (re.search(r"core::ops::index::Index::index$", n) or n in (VD + "get", "core::slice::get")) and len(a) == 2:
+            src = self.source(a[0])
+            i = self.ev(a[1])
+            hit = ("elem", self.local_index(src) is not None and i == self.local_index(src))
+            return hit if n.endswith("index") else some(hit)
+        if re.search(r"::(eq|ne)$", n) and ("PartialEq" in s[1] or "core::cmp" in n) and len(a) == 2:
+            x, y = a
+            if self.is_point(y):
+                e = self.ev(x)
+            elif self.is_point(x):
+                e = self.ev(y)
+            else:
+                raise Unknown(s)
+            if not (isinstance(e, tuple) and e[0] == "elem"):
+                raise Unknown(s)
+            return int(e[1] == n.endswith("::eq"))
+        if n == "core::option::Option::or_else" and len(a) == 2:
+            v = self.ev(a[0])
+            return v if v != NONE else self.closure_value(a[1], [])
+        if n == "core::option::Option::or" and len(a) == 2:
+            v = self.ev(a[0])
+            return v if v != NONE else self.ev(a[1])
+        if n == "core::option::Option::map" and len(a) == 2:
+            v = self.ev(a[0])
+            return v if v == NONE else some(self.closure_value(a[1], [v[1]]))
+        if n == "core::option::Option::and_then" and len(a) == 2:
+            v = self.ev(a[0])
+            return v if v == NONE else self.closure_value(a[1], [v[1]])
+        raise Unknown(s)
+
+
+def check_position(res, P):
+    f = P.one(r"^%s::position$" % re.escape(RB))
+    bad = None
+    n = 0
+    for H in (0, 2, 5, PosModel.LEN):
+        for k in [None] + list(range(PosModel.LEN)):
+            m = PosModel(P, H, k)
+            try:
+                v = m.function_value(f)
+            except Unknown as e:
+                a = e.args[0] if e.args else "?"
+                what = a[0] if isinstance(a, tuple) and a and isinstance(a[0], str) and a[0] not in ("call", "agg", "field", "local", "param") else sym_str(a, 90) if isinstance(a, tuple) else str(a)
+                res.violation("position:unrecognised", "RollbackBuffer::position cannot be evaluated as a search of the deque for the given point (%s): it is not known "
+                              "to return an index into the deque itself" % what, where=where(f), rule="R-TABLE")
+                return
+            except BudgetExceeded as e:
+                res.violation("position:budget", str(e), where=where(f), rule="R-TABLE")
+                return
+            n += 1
+            want = NONE if k is None else some(k)
+            if v != want and bad is None:
+                where_k = "absent" if k is None else ("at deque index %d (%s slice, offset %d)" % (k, "first" if k < H else "second", k if k < H else k - H))
+                bad = "with the ring buffer split %d+%d and the point %s it returns %s; the model's index is %s" % (
+                    H, PosModel.LEN - H, where_k, "None" if v == NONE else "Some(%s)" % (v[1],), "None" if k is None else "Some(%d)" % k)
+    res.count("position scenarios (split x place)", n)
+    if bad:
+        key = "position=>slice-relative-index" if "second slice" in bad else "position=>wrong-index"
+        res.violation(key, "RollbackBuffer::position: " + bad, where=where(f), rule="R-TABLE")
+    else:
+        res.ok("position:deque-index", "R-TABLE", "Some(k) for the point at deque index k, None when absent, for every split of the ring buffer (%d scenarios)" % n)
+
+
 def check_writers(res, P):
     vis = field_vis(P, RB, "points")
     if vis is None:
@@ -324,15 +528,17 @@ def run(tier):
     check_roll_back(res, P)
     check_roll_forward(res, P)
     check_pop(res, P)
+    check_position(res, P)
     check_writers(res, P)
     res.assumptions += ["std VecDeque semantics of push_back / truncate / clear / drain / pop_front",
-                        "RollbackBuffer::position returns Some(i) only for i < len (its own result is not decided: which of several equal points is found)"]
+                        "which of several equal points `position` finds is not decided (the scenarios hold one copy of the sought point)"]
     return finish(res,
                   explanation="Decides the one-step clauses of C26 on the code of the three mutators: roll_back's table over the lookup outcome "
                               "(found at i => keep i+1 and Handled; not found => empty and OutOfScope; the kept length is evaluated, not matched), "
                               "roll_forward appends the given point at the back, pop_with_depth removes max(len-depth,0) points from the front and "
-                              "returns them in order (evaluated over len 0..6 x depth 0..7), and only RollbackBuffer methods write the private deque. "
+                              "returns them in order (evaluated over len 0..6 x depth 0..7), `position` returns an index into the deque itself (evaluated over "
+                              "every split of the ring buffer into its two slices and every place of the point), and only RollbackBuffer methods write the private deque. "
                               "NOT decided: agreement with the list model over histories (sequences of operations), which equal point `position` "
                               "finds when the buffer holds duplicates, and anything about the read-only accessors.",
-                  rule_text="R-TABLE(roll_back over position's Option) + R-PROV(roll_forward) + R-TABLE(pop_with_depth over len x depth) + R-WRITERS(points)",
+                  rule_text="R-TABLE(roll_back over position's Option) + R-PROV(roll_forward) + R-TABLE(pop_with_depth over len x depth) + R-TABLE(position over split x place) + R-WRITERS(points)",
                   trusted_base=["rustc MIR", "std VecDeque semantics"])
